@@ -297,6 +297,19 @@ impl Ctx {
         p
     }
 
+    /// used by legs whose search runs outside this process (the Hypothesis suite)
+    pub fn add_hash(&mut self, h: u64) {
+        self.hashes.insert(h);
+    }
+
+    pub fn record_failure(&mut self, leg: &str, case_json: &Value, fail: &Fail) {
+        if self.is_known(&fail.sig) {
+            *self.out.excluded_known.entry(fail.sig.clone()).or_insert(0) += 1;
+        } else {
+            self.write_replay(leg, case_json, fail);
+        }
+    }
+
     fn is_known(&self, sig: &str) -> bool {
         self.known.iter().any(|k| k == sig)
     }
